@@ -511,6 +511,7 @@ func cmdCheck(args []string) int {
 			if i >= 5 {
 				break
 			}
+			v.Tier = *tier
 			path := writeReplay(id, v)
 			ok, how := confirm(cd, P, v, path)
 			if ok {
@@ -577,6 +578,9 @@ func writeReplay(id string, v *engine.Violation) string {
 	return p
 }
 
+// nativeTier is the tier of the counterexample being replayed natively.
+var nativeTier = "quick"
+
 // confirm re-executes the counterexample concretely in the engine and, when
 // the harness has no stubs, natively against the real build.
 func confirm(cd *checkDef, P *engine.Program, v *engine.Violation, path string) (bool, string) {
@@ -589,7 +593,12 @@ func confirm(cd *checkDef, P *engine.Program, v *engine.Violation, path string) 
 	if hd == nil {
 		return false, "harness not found"
 	}
-	cfg := hd.config("quick", nil)
+	replayTier := v.Tier
+	if replayTier == "" {
+		replayTier = "quick"
+	}
+	nativeTier = replayTier
+	cfg := hd.config(replayTier, nil)
 	cfg.ReplayVals = v.Values
 	if cfg.ReplayVals == nil {
 		cfg.ReplayVals = map[string]uint64{}
@@ -657,7 +666,7 @@ func TestVerifReplay(t *testing.T) {
 	os.WriteFile(ovFile, ob, 0o644)
 	cmd := exec.Command("go", "test", "-vet=off", "-count=1", "-run", "^TestVerifReplay$", "-overlay", ovFile, "./"+pkgDir)
 	cmd.Dir = engine.RepoDir
-	cmd.Env = append(engine.GoEnv(), "VERIF_REPLAY="+path)
+	cmd.Env = append(engine.GoEnv(), "VERIF_REPLAY="+path, "VERIF_TIER="+nativeTier)
 	out, err := cmd.CombinedOutput()
 	s := string(out)
 	os.WriteFile(strings.TrimSuffix(path, ".json")+".log", out, 0o644)
